@@ -331,6 +331,54 @@ func c10Run(c *core.Ctx) *core.Result {
 			return r
 		}
 	}
+	// one filter object walked several times: again after a completed walk,
+	// re-entrantly from inside a walk's callback, and from another goroutine
+	// while a walk is in progress. A walk's result is a function of the tree
+	// and the filter, not of what else the object is or was used for.
+	if core.NewRand(core.Mix(c.Seed, "C10-object-reuse", c.Index)).P(1, 8) {
+		if base, err := fsutil.NewFS(src); err == nil {
+			if ffs, err := fsutil.NewFilterFS(base, &fsutil.FilterOpt{IncludePatterns: inc, ExcludePatterns: exc}); err == nil {
+				list := func(cb func(n int, p string)) ([]string, error) {
+					var out []string
+					err := ffs.Walk(context.Background(), "", func(p string, d gofs.DirEntry, err error) error {
+						if err != nil {
+							return err
+						}
+						out = append(out, p)
+						if cb != nil {
+							cb(len(out), p)
+						}
+						return nil
+					})
+					return out, err
+				}
+				first, err1 := list(nil)
+				if err1 == nil && len(first) > 0 {
+					at := 1 + int(salt%uint64(len(first)))
+					var nested, other []string
+					var nestedErr, otherErr error
+					outer, outerErr := list(func(n int, p string) {
+						if n == at {
+							nested, nestedErr = list(nil)
+							done := make(chan struct{})
+							go func() { other, otherErr = list(nil); close(done) }()
+							<-done
+						}
+					})
+					r.Count("filter_objects_walked_repeatedly", 1)
+					for _, w := range []struct {
+						what string
+						got  []string
+						err  error
+					}{{"the walk that was interrupted by others at its entry " + fmt.Sprint(at), outer, outerErr}, {"a walk started from inside another walk's callback", nested, nestedErr}, {"a walk run in another goroutine while one was in progress", other, otherErr}} {
+						if w.err != nil || !eqStrings(w.got, first) {
+							r.ViolateD("filter-object-reuse", sample, "one filter object (inc=%q exc=%q): %s reports %q (err=%v), the first walk of the object reported %q", inc, exc, w.what, trunc(w.got, 20), w.err, trunc(first, 20))
+						}
+					}
+				}
+			}
+		}
+	}
 	switch mode {
 	case 0, 1, 2:
 		if mode != 0 {
